@@ -135,6 +135,29 @@ func (c *Ctx) keySignature2(u *FuncUnit, v *types.Var, cs codecShape, depth int)
 								}
 								c.sigDepth--
 							}
+							// encode(key) (text, colKey []byte) { return t.cok.Transform(key) }: the
+							// results are those of Transform, in its order
+							if rc, isCall := ast.Unparen(rets[0]).(*ast.CallExpr); isCall && strings.HasSuffix(c.m.calleeName(rc), ".Transform") && len(rc.Args) == 1 && len(as.Rhs) == 1 && len(as.Lhs) > 1 {
+								op = fmt.Sprintf("T%d", idx)
+								if cs.known && cs.sameResults {
+									op = "T"
+								}
+								if sel, ok := rc.Fun.(*ast.SelectorExpr); ok {
+									op += "@" + display((&canonCtx{info: info}).canon(sel.X))
+								}
+								if cs.known && cs.identity {
+									op = "conv"
+								}
+							}
+						} else if all && len(rets) == len(as.Lhs) && len(as.Rhs) == 1 && idx < len(rets) {
+							// return text, sort – each result by its own derivation
+							if rv := identVar(info, rets[idx]); rv != nil {
+								c.sigDepth++
+								if sig := c.keySignature2(cu, rv, cs, 0); sig != "" {
+									op = sig
+								}
+								c.sigDepth--
+							}
 						}
 					}
 				}
